@@ -6,7 +6,13 @@ from .fix import fix
 
 
 def gen_cfg(rng):
-    kern = rng.choice(["uniform", "giso", "giso", "ganiso", "gcorr"])
+    kern = rng.choice(["uniform", "giso", "giso", "ganiso", "gcorr", "gcorrmarg"])
+    if kern == "gcorrmarg":
+        # correlated Gaussian, sd 2 ticks, 4x4 pixels of 10 ticks: the grid reaches >= 8 sd around points near its centre
+        g = dict(b0=-20, p0=0, ps=10, rx=4, ry=4, kern="gcorr", ka=2, kb=2, rho=rng.choice([0.3, -0.5, 0.8, -0.85, 0.6]), absdecide=0, marg=1, form="matrix", central=True)
+        wk = rng.choice(["pers", "ramp", "const"])
+        g.update(wkind=wk, wn=1, ramp=[0, 3, 2, 8] if rng.random() < 0.5 else [1, 4, 0, 6])
+        return g
     ps = rng.choice([2, 4])
     g = dict(b0=rng.choice([0, -4, 2, 6]), p0=rng.choice([0, 2]), ps=ps, rx=rng.randint(2, 5), ry=rng.randint(2, 5))
     if kern == "uniform":
@@ -20,7 +26,7 @@ def gen_cfg(rng):
     else:
         g.update(kern="gcorr", ka=rng.choice([4, 8]), kb=rng.choice([4, 8]), rho=rng.choice([0.3, -0.5, 0.8, -0.85]), absdecide=0, form="matrix")
     wk = rng.choice(["pers", "pers", "ramp", "const"])
-    g.update(wkind=wk, wn=rng.choice([1, 2]) if wk == "pers" else 1, ramp=[0, 3, 2, 8] if rng.random() < 0.5 else [1, 4, 0, 6])
+    g.update(wkind=wk, wn=rng.choice([1, 2]) if wk == "pers" else 1, ramp=[0, 3, 2, 8] if rng.random() < 0.5 else [1, 4, 0, 6], marg=0)
     return g
 
 
@@ -28,6 +34,9 @@ def gen_points(rng, g, n):
     even = 16 in (g["ka"], g["kb"])
     pts = []
     for _ in range(n):
+        if g.get("central"):
+            pts.append([rng.randint(-4, 4), rng.randint(16, 24)])
+            continue
         b = rng.randint(g["b0"] - 6, g["b0"] + g["rx"] * g["ps"] + 6)
         p = rng.randint(1, g["p0"] + g["ry"] * g["ps"] + 6)
         if even:
@@ -44,6 +53,8 @@ def build(rng, e, with_jobs=False):
     U = X + Y
     Up = rng.sample(U, len(U))
     Xz = X + [[rng.randint(g["b0"], g["b0"] + g["rx"] * g["ps"]), 0] for _ in range(rng.randint(1, 2))]   # zero-persistence points
+    if g.get("central"):
+        Xz = X + [list(X[-1])]     # (a zero-persistence point would sit 10 sd from the grid's lower edge only for const weights; keep all points central)
     Xr = X + [list(X[0])]             # repeated pair inside one diagram
     bp = [X, Y, Z, U, Up, Xz, [], Xr]
     names = ["X", "Y", "Z", "X+Y", "perm(X+Y)", "X+zero-persistence", "empty", "X+repeat"]
@@ -96,7 +107,7 @@ def to_case(item, r):
                     rr.append(fix(conv(Fraction(v))))
             rows.append(rr)
         imgs.append([item["dgms"][im["id"]], im["skew"], fin, im["shape"] if len(im["shape"]) == 2 else [-1, -1], rows])
-    cfg = {k2: g[k2] for k2 in ("b0", "p0", "ps", "rx", "ry", "kern", "ka", "kb", "wkind", "wn", "ramp", "absdecide")}
+    cfg = {k2: g[k2] for k2 in ("b0", "p0", "ps", "rx", "ry", "kern", "ka", "kb", "wkind", "wn", "ramp", "absdecide", "marg")}
     return dict(cfg=cfg, imgs=imgs), [(im["id"], im["mode"]) for im in r["imgs"]]
 
 
